@@ -151,6 +151,15 @@ func runC13(tier string, seed uint64, rep *Report) {
 			}
 		}
 	}
+	// assoc with a trailing index / key that has no value is outside the domain, for vectors as for maps
+	for _, coll := range []types.MalType{V(1, 2, 3), V(1), hmOf(Kw("a"), 1), hmOf()} {
+		for _, k1 := range []types.MalType{0, 1, Kw("a")} {
+			for _, k2 := range []types.MalType{0, 1, Kw("b")} {
+				addProgram(rep, Call("assoc", qd(coll), k1, Kw("v"), k2), true, "assoc-4-arguments")
+				addProgram(rep, Call("assoc", qd(coll), k1, Kw("v"), k2, Kw("w")), true, "assoc-5-arguments")
+			}
+		}
+	}
 	// higher-order ones with closures
 	for _, a := range u {
 		addProgram(rep, Call("map", Call("fn", V(S("x")), Call("list", S("x"))), qd(a)), true, "map")
@@ -238,6 +247,7 @@ func runC13(tier string, seed uint64, rep *Report) {
 		law("assoc-in-creates-path", Call("=", Call("get-in", Call("assoc-in", qm, V(K("zz"), k2), qv), V(K("zz"), k2)), qv))
 		law("update-in-creates-path", Call("=", Call("get-in", Call("update-in", qm, V(K("zz"), k2), Call("fn", V(S("x")), qv)), V(K("zz"), k2)), qv))
 		law("count-keys", Call("=", Call("count", Call("keys", qm)), Call("count", qm)))
+		law("assoc-in-does-not-change-argument", Call("let", V(S("m"), qm, S("m2"), Call("assoc-in", S("m"), V(K("zq1"), K("zq2")), qv)), Call("=", S("m"), qm)))
 		// renaming is simultaneous: a swap is an involution, a merge-preferring README example, sizes are kept
 		swap := types.HashMap{Val: map[string]types.MalType{k: k2, k2: k}}
 		if k != k2 {
@@ -262,6 +272,7 @@ func runC13(tier string, seed uint64, rep *Report) {
 		} else {
 			law("take-last-nothing-is-nil", Call("nil?", Call("take-last", nn, Call("take", 0, qs))))
 		}
+		law("map-with-rest-parameter-keeps-each-list", Call("=", Call("map", Call("fn", V(S("&"), S("xs")), S("xs")), qs), Call("map", S("list"), qs)))
 		law("first-cons", Call("=", Call("first", Call("cons", qv, qs)), qv))
 		law("rest-cons", Call("=", Call("rest", Call("cons", qv, qs)), qs))
 		law("count-conj", Call("=", Call("count", Call("conj", qs, qv)), Call("+", 1, Call("count", qs))))
